@@ -36,4 +36,12 @@ if not want:
         if status == "ALARM" and not note:
             bad += 1
         print(f"refactor {os.path.basename(p):50} {status} {note}")
+    # refactors/broken/<Cxx>-*.diff: a refactor patch with one thing broken on top; the named property's check must report it
+    for p in sorted(glob.glob("refactors/broken/*.diff")):
+        pid = os.path.basename(p).split("-")[0]
+        rc, out = run(p, [pid])
+        status = "reported" if "VIOLATION" in out else "SILENT"
+        if status == "SILENT":
+            bad += 1
+        print(f"broken-refactor {os.path.basename(p):43} {status}")
 sys.exit(1 if bad else 0)
